@@ -21,6 +21,7 @@ import (
 	"log/slog"
 	"net/http"
 	"net/http/httptest"
+	"sort"
 	"strconv"
 	"strings"
 	"sync"
@@ -155,6 +156,7 @@ type Exchange struct {
 	RespBody   []byte
 	RespType   int // Message-Type header of the response (255 for errors), -1 unknown
 	// set by hooks
+	Order     int   // position in serving order (exchanges may be served in another order than they were created)
 	Err       error // abort the exchange with a transport error (before or after the server saw it)
 	SkipServe bool  // Pre hook answered itself (Status/RespHeader/RespBody filled in)
 	Served    bool
@@ -162,11 +164,14 @@ type Exchange struct {
 
 // Wire joins a client transport with a server handler in memory.
 type Wire struct {
-	H    http.Handler
-	Pre  func(x *Exchange) // may alter the request, set Err (request lost) or SkipServe
-	Post func(x *Exchange) // may alter the response or set Err (response lost)
-	mu   sync.Mutex
-	Log  []*Exchange
+	H      http.Handler
+	Pre    func(x *Exchange) // may alter the request, set Err (request lost) or SkipServe
+	Post   func(x *Exchange) // may alter the response or set Err (response lost)
+	mu     sync.Mutex
+	Log    []*Exchange
+	served int
+	// Serving is the index (in Log) of the exchange whose request the handler is processing right now, -1 if none.
+	Serving int
 }
 
 // NewWire creates a wire to a server.
@@ -235,7 +240,14 @@ func (w *Wire) Serve(ctx context.Context, x *Exchange) {
 		r.Header.Del("X-Verif-Content-Length")
 	}
 	rec := httptest.NewRecorder()
+	prev := w.Serving
+	w.Serving = x.Idx
+	w.mu.Lock()
+	w.served++
+	x.Order = w.served
+	w.mu.Unlock()
 	w.H.ServeHTTP(rec, r)
+	w.Serving = prev
 	x.Served = true
 	x.Status = rec.Code
 	x.RespHeader = rec.Header().Clone()
@@ -246,6 +258,20 @@ func (w *Wire) Serve(ctx context.Context, x *Exchange) {
 			x.RespType = n
 		}
 	}
+}
+
+// ServedLog returns the exchanges that reached the handler, in the order they were served.
+func (w *Wire) ServedLog() []*Exchange {
+	w.mu.Lock()
+	defer w.mu.Unlock()
+	var out []*Exchange
+	for _, x := range w.Log {
+		if x.Served {
+			out = append(out, x)
+		}
+	}
+	sort.SliceStable(out, func(i, j int) bool { return out[i].Order < out[j].Order })
+	return out
 }
 
 // Send posts a raw message (adversary side), returning the exchange.
@@ -373,4 +399,23 @@ func Extend(ov *fdo.Voucher, owner crypto.Signer, next crypto.Signer, k keys.Kin
 		return fdo.ExtendVoucher(ov, owner, p, nil)
 	}
 	return nil, fmt.Errorf("unsupported key")
+}
+
+// RSAKey returns the owner RSA key an ASYMKEX suite needs (nil for other suites).
+func RSAKey(s kex.Suite) *rsa.PrivateKey {
+	switch s {
+	case kex.ASYMKEX2048Suite:
+		return keys.Get("rsa2048", "owner1").(*rsa.PrivateKey)
+	case kex.ASYMKEX3072Suite:
+		return keys.Get("rsa3072", "owner1").(*rsa.PrivateKey)
+	}
+	return nil
+}
+
+// RSAPub is the public half of RSAKey.
+func RSAPub(s kex.Suite) *rsa.PublicKey {
+	if k := RSAKey(s); k != nil {
+		return &k.PublicKey
+	}
+	return nil
 }
